@@ -57,6 +57,7 @@ type outLine struct {
 
 type ReplayFile struct {
 	Property  string            `json:"property"`
+	Workload  string            `json:"workload,omitempty"`
 	Flavour   string            `json:"flavour"`
 	Env       []string          `json:"env,omitempty"`
 	Tier      string            `json:"tier"`
@@ -84,7 +85,15 @@ type batch struct {
 	Progress bool              // -progress (crash attribution)
 	Prefix   bool              // runs depend on earlier runs of the same process (replay records the prefix)
 	Toolchain string           // "" default, "go1.26.8"
+	Workload  string           // worker workload name ("" = the property id)
 	TimeoutS int               // per-process watchdog (seconds)
+}
+
+func (bt *batch) wl(prop string) string {
+	if bt.Workload != "" {
+		return bt.Workload
+	}
+	return prop
 }
 
 type propSpec struct {
@@ -412,7 +421,7 @@ func runBatch(b *builder, prop string, bt *batch, tier string, seed uint64, nrun
 					mu.Unlock()
 					break
 				}
-				args := []string{"-prop", prop, "-seed", strconv.FormatUint(seed, 10), "-from", strconv.Itoa(from), "-to", strconv.Itoa(j.to), "-tier", tier, "-cfg", cfgString(bt.Cfg)}
+				args := []string{"-prop", bt.wl(prop), "-seed", strconv.FormatUint(seed, 10), "-from", strconv.Itoa(from), "-to", strconv.Itoa(j.to), "-tier", tier, "-cfg", cfgString(bt.Cfg)}
 				if bt.Progress {
 					args = append(args, "-progress")
 				}
